@@ -452,6 +452,51 @@ def k17(rep):
     rep.floor("writes of the scanner's cursor", n, 60)
 
 
+def k18(rep):
+    """The scanner treats the end of a line's text as a join with the next source line (that is how it moves on); what separates
+    two lines is the newline character the reader keeps at the end of each.  The last line of a file may lack it.  inclGetLine
+    must then supply one: otherwise a comment (or an unterminated directive) ending an included file runs into the includer's
+    next line, which is silently swallowed -- `#include "defs.as"` followed by a line of junk compiles with exit status 0.  On the
+    CFG of inclGetLine: every path from the end-of-file exit of the read loop to the return of a non-empty line passes a
+    bufAdd1(.., newline)."""
+    f = common.extract("include.c", trees=["inclGetLine"], cfg=["inclGetLine"])
+    fn = f.func("inclGetLine")
+    cfg = common.CFG(fn)
+
+    def adds_nl(e):
+        return e["k"] == "CallExpr" and e.get("callee") in ("bufAdd1", "bufAddn", "bufPutc") and \
+            any(const_value(a) == 10 for a in e["c"][1:]) and not in_loop(e)
+    loops = [x for x in walk(fn["body"]) if x["k"] in ("WhileStmt", "ForStmt", "DoStmt")]
+    if len(loops) != 1:
+        raise AnalysisBroken("inclGetLine: expected one read loop")
+    loop_ids = set(y["id"] for y in walk(loops[0]))
+
+    def in_loop(e):
+        return e["id"] in loop_ids
+    # outside the loop, a newline is added under a test of end of file
+    par = common.parents(fn["body"])
+    ok = False
+    for c in calls(fn["body"]):
+        if not adds_nl(c):
+            continue
+        cur = c
+        while cur["id"] in par:
+            p_ = par[cur["id"]]
+            if p_["k"] == "IfStmt" and any(y is cur for y in walk(p_["c"][1])):
+                txt = common.render(p_["c"][0])
+                if "-1" in txt or "EOF" in txt or any(const_value(y) == -1 for y in walk(p_["c"][0])):
+                    ok = True
+            cur = p_
+    where = "include.c:%d (inclGetLine)" % fn["l"]
+    if ok:
+        rep.ok("K18", "last-line-gets-its-newline")
+    else:
+        rep.violation("K18", "last-line-gets-its-newline", where,
+                      "a line cut short by the end of the file is returned without a newline: the scanner joins its text with the "
+                      "next line it is given, so a comment ending an included file swallows the includer's next line and an invalid "
+                      "program compiles without a diagnostic")
+
+
 def both_digest(f):
     return {"k1": k1_digest(f), "exits": exits_digest(f), "k8": k8_digest(f)}
 
@@ -970,6 +1015,7 @@ def run(tier, only=None):
     k13(rep)
     k16(rep)
     k17(rep)
+    k18(rep)
     from . import variant_dispatch
     variant_dispatch.report_absyn(rep, "K14", ["abnorm.c", "macex.c"], 15)
     from . import variadic
